@@ -88,6 +88,7 @@ fn mk(k: &str, mut cs: Vec<Expr>) -> Expr {
         "Function" => Expr::func("fun", cs.remove(0)),
         "Index" => Expr::index(cs.remove(0), Index::from("fld")),
         "IndexNum" => Expr::index(cs.remove(0), Index::from(0usize)),
+        "IndexBig" => Expr::index(cs.remove(0), Index::from(4_294_967_296usize)),
         "If" => {
             let a = cs.remove(0);
             let b = cs.remove(0);
@@ -111,7 +112,7 @@ fn arity(k: &str) -> usize {
         "Value" | "Reference" | "Symbol" => 0,
         "If" => 3,
         "Vec" | "Map" => 2,
-        "Function" | "Index" | "IndexNum" => 1,
+        "Function" | "Index" | "IndexNum" | "IndexBig" => 1,
         _ => {
             if BINARY.iter().any(|(n, _)| crate::c04::binary_kind(n) == k) {
                 2
@@ -125,6 +126,7 @@ fn arity(k: &str) -> usize {
 fn composite_kinds() -> Vec<&'static str> {
     let mut v: Vec<&'static str> = ALL_KINDS.iter().copied().filter(|k| arity(k) > 0).collect();
     v.push("IndexNum");
+    v.push("IndexBig");
     v
 }
 
